@@ -95,7 +95,30 @@ use std::sync::Mutex;
 static VALS: Mutex<Vec<Vec<u8>>> = Mutex::new(Vec::new());
 static POS: Mutex<usize> = Mutex::new(0);
 pub fn load(v: Vec<Vec<u8>>) { *VALS.lock().unwrap() = v; *POS.lock().unwrap() = 0; }
+static RNG: Mutex<u64> = Mutex::new(0);
+static REC: Mutex<Vec<Vec<u8>>> = Mutex::new(Vec::new());
+/// random-search mode (used when the verifier refuted an obligation but could not produce a trace): every draw is
+/// pseudo-random, biased towards small values and extremes, and recorded so that a failing run can be replayed
+pub fn set_random(seed: u64) { *RNG.lock().unwrap() = seed.wrapping_mul(0x9E3779B97F4A7C15) | 1; }
+pub fn recorded() -> Vec<Vec<u8>> { REC.lock().unwrap().clone() }
+fn rnd(state: &mut u64) -> u64 { let mut x = *state; x ^= x << 13; x ^= x >> 7; x ^= x << 17; *state = x; x }
 fn next(n: usize) -> Vec<u8> {
+    {
+        let mut st = RNG.lock().unwrap();
+        if *st != 0 {
+            let mode = rnd(&mut st) % 8;
+            let mut v = vec![0u8; n];
+            match mode {
+                0 | 1 | 2 => { v[0] = (rnd(&mut st) % 4) as u8; }                      // small value
+                3 => { v[0] = (rnd(&mut st) % 16) as u8; }
+                4 => { for b in v.iter_mut() { *b = 0xff; } if rnd(&mut st) % 2 == 0 { v[n - 1] = 0x7f; } }  // extremes
+                5 => { v[0] = rnd(&mut st) as u8; }                                    // one byte
+                _ => { for b in v.iter_mut() { *b = rnd(&mut st) as u8; } }            // anything
+            }
+            REC.lock().unwrap().push(v.clone());
+            return v;
+        }
+    }
     let vals = VALS.lock().unwrap();
     let mut pos = POS.lock().unwrap();
     let r = match vals.get(*pos) { Some(v) => v.clone(), None => vec![0u8; n] };
@@ -125,6 +148,15 @@ fn main() {
         txt.lines().filter(|l| !l.trim().is_empty()).map(|l| l.split(',').filter(|s| !s.trim().is_empty()).map(|s| s.trim().parse::<u8>().unwrap()).collect()).collect()
     } else { Vec::new() };
     dust_dds::verif_shim::load(vals);
+    if let Ok(seed) = std::env::var("VERIF_RANDOM") {
+        dust_dds::verif_shim::set_random(seed.parse::<u64>().unwrap_or(1));
+        std::panic::set_hook(Box::new(|info| {
+            let rec = dust_dds::verif_shim::recorded();
+            let txt: Vec<String> = rec.iter().map(|v| v.iter().map(|b| b.to_string()).collect::<Vec<_>>().join(",")).collect();
+            eprintln!("{}", info);
+            eprintln!("VERIF-VALUES: {}", txt.join(";"));
+        }));
+    }
     if !dust_dds::verif_replay(name) { eprintln!("VERIF-REPLAY: unknown harness {}", name); std::process::exit(5); }
     println!("VERIF-REPLAY: harness {} completed without panic", name);
 }
